@@ -620,6 +620,8 @@ def c18_positions(plot, st, full, model_times, margin, valid_channels):
             out.append(F(["C18"], "figure-width", got=plot["width"], want=latest + margin))
         if plot.get("size") and abs(plot["size"][0] - plot["width"]) > 1e-9:
             out.append(F(["C18"], "figure-size!=width", got=plot["size"], want=plot["width"]))
+        if plot.get("size") and rows and abs(plot["size"][1] - plot.get("spacing", 1.2) * len(rows)) > 1e-9:
+            out.append(F(["C18"], "figure-height!=rows", got=plot["size"], rows=len(rows)))
         sp = plot.get("spacing", 1.2)
         for what, i, qid, x, y in plot["piv"]:
             if what != "op" or i >= len(model_times):
